@@ -37,11 +37,22 @@ Fixpoint final_present (p : bool) (l : list dout) : bool :=
   end.
 Definition count_out (x : dout) (l : list dout) : nat := length (filter (fun y => bool_decide (y = x)) l).
 
-(* at most once, only after a successful delete, naming target and action, command
-   gone afterwards, errors retried and never executed.  [quiet]: all workers finished. *)
-Definition law_amo (c : command) (b : bool) (outs : list dout) (enq : list request)
+(* "triggered is a subset of deleted" at every Delete call: the number of requests seen
+   enqueued at the k-th call is at most the number of OK answers before it *)
+Fixpoint prefix_ok (acc : nat) (outs : list dout) (sn : list nat) : bool :=
+  match outs, sn with
+  | [], [] => true
+  | o :: r, n :: r' => bool_decide (n <= acc)%nat && prefix_ok (acc + (if bool_decide (o = DOk) then 1 else 0)) r r'
+  | _, _ => false
+  end.
+
+(* at most once, only after a successful delete (at the end and at every Delete call),
+   naming target and action, command gone afterwards, errors retried or dropped and never
+   executed.  [quiet]: all workers finished. *)
+Definition law_amo (mx : Z) (c : command) (b : bool) (outs : list dout) (sn : list nat) (enq : list request)
            (present_end : bool) (retried : nat) (quiet : bool) : bool :=
   oracle_ok b outs &&
+  prefix_ok 0 outs sn &&
   bool_decide (length enq <= 1)%nat &&
   bool_decide (length enq <= count_out DOk outs)%nat &&
   (negb quiet || bool_decide (length enq = count_out DOk outs)) &&
@@ -49,7 +60,8 @@ Definition law_amo (c : command) (b : bool) (outs : list dout) (enq : list reque
   (bool_decide (enq = []) || negb present_end) &&
   (b || bool_decide (enq = [])) &&
   bool_decide (present_end = final_present b outs) &&
-  bool_decide (retried = count_out DErr outs + count_out DErrApplied outs)%nat.
+  bool_decide (retried <= count_out DErr outs + count_out DErrApplied outs)%nat &&
+  (negb (bool_decide (mx = -1)) || bool_decide (retried = count_out DErr outs + count_out DErrApplied outs)%nat).
 
 (* ---------- CLI under faults: evaluated on what the real CLI did against the
    scripted API server ---------- *)
